@@ -101,8 +101,10 @@ impl AccountTrees {
             // this breaks recursion
             Ok(())
         } else {
-            let parent_atn =
-                Arc::new(AccountTreeNode::from(parent).expect("IE: synthetic parent is invalid"));
+            // not an internal error: a component ending in a white space character which is
+            // also an identifier character (U+1680) passes the per-component check of the
+            // child, but the parent's name then ends in white space
+            let parent_atn = Arc::new(AccountTreeNode::from(parent)?);
             target_account_tree.insert(parent.to_string(), parent_atn.clone());
 
             Self::build_account_tree(target_account_tree, parent_atn, other_account_tree)
